@@ -60,6 +60,7 @@ class Ref:
         self.tree_name = None
         self.col_names = None
         self.features = set()
+        self.requests = []   # (container type, bank) of every e.X("bank") evaluated
 
     # ---------------------------------------------------------------- helpers
     def as_seq(self, v, what):
@@ -410,6 +411,7 @@ class Ref:
             if len(args) != 1 or not isinstance(args[0], StrV):
                 raise RefUnsupported("collection needs exactly one string argument")
             self.features.add("coll:" + name)
+            self.requests.append((spec.container, args[0].s))
             if spec.singleton:
                 o = self.ev.store_singleton(spec.container, args[0].s, 1)
                 self.undef.append((And(g, o.null), "missing_collection"))
